@@ -572,7 +572,7 @@ CreateOrGetClauses(T, prev, ev, post) ==
 
 (* prev = the latest logged state before the event, post = the state logged   *)
 (* with it (the recorder omits a post-state identical to the previous one)    *)
-DClauses(T, l, prev, post) ==
+DClauses0(T, l, prev, post) ==
     LET ev == T.events[l] IN
     \* the operators below are only defined on states that mention operations/jobs/machines of the
     \* instance: a logged state that does not is reported as such (for the property being checked, and C01)
@@ -624,4 +624,11 @@ DClauses(T, l, prev, post) ==
            [] ev.a = "CreateOrGetCond" -> CreateOrGetCondClauses(T, prev, ev, post)
            [] ev.a = "CreateOrGet" -> CreateOrGetClauses(T, prev, ev, post)
            [] OTHER -> {C("M:unknown-event")}
+
+(* C14's last sentence is about EVERY call: whatever the event was, the instance object (operations, ids, *)
+(* name, metadata and every cached view handed out by reference) must still be what it was              *)
+DClauses(T, l, prev, post) ==
+    DClauses0(T, l, prev, post)
+    \cup (IF "instok" \in DOMAIN post /\ post.instok = FALSE /\ T.events[l].a \notin {"Transform"}
+          THEN {C("C14:instance-modified")} ELSE {})
 =============================================================================
